@@ -33,15 +33,14 @@ theorem same_length (ds ds' : DataSource) (t t' : Text)
 
 /-- **`BidiInfo` does not depend on how many code units a character occupies** (nor on the scalar values beyond
     their class and bracket values): two well-formed texts, in any encodings, whose characters have position by
-    position the same class value and the same bracket value under their respective data sources (both subject
-    to the FSI-width proviso of C02, which holds for every source that gives class FSI to U+2068 only) get,
-    for every default level,
+    position the same class value and the same bracket value under their respective data sources (any sources:
+    no FSI-width proviso is needed any more, since the repair of finding D10) get, for every default level,
     * the same reported class for every character,
     * the same level for every character,
     * the same paragraphs as (first character index, one-past-last character index, level),
     * the same panic status. -/
 theorem C12_unit_len_irrelevant (ds ds' : DataSource) (t t' : Text) (hwf : t.WF) (hwf' : t'.WF)
-    (hfsi : C02.FSIWidth ds t) (hfsi' : C02.FSIWidth ds' t') (d : Option Nat)
+    (d : Option Nat)
     (hcls : t.segs.map (fun s => ds.cls s.cp) = t'.segs.map (fun s => ds'.cls s.cp))
     (hbrk : t.segs.map (fun s => ds.brk s.cp) = t'.segs.map (fun s => ds'.brk s.cp)) :
     let b := bidiInfo ds t d
@@ -52,10 +51,10 @@ theorem C12_unit_len_irrelevant (ds ds' : DataSource) (t t' : Text) (hwf : t.WF)
       = b'.paras.map (fun p => (charIndexOf t' p.start, charIndexOf t' p.stop, p.level)) ∧
     (b.err = none ↔ b'.err = none) := by
   have h : SameValues ds ds' t t' := ⟨hcls, hbrk⟩
-  refine ⟨?_, multi_levels_congr ds ds' t t' hwf hwf' hfsi hfsi' d h 0, ?_,
-    multi_err_congr ds ds' t t' hwf hwf' hfsi hfsi' d h⟩
-  · have h1 := multi_classes_chars ds t d hwf hfsi
-    have h2 := multi_classes_chars ds' t' d hwf' hfsi'
+  refine ⟨?_, multi_levels_congr ds ds' t t' hwf hwf' d h 0, ?_,
+    multi_err_congr ds ds' t t' hwf hwf' d h⟩
+  · have h1 := multi_classes_chars ds t d hwf
+    have h2 := multi_classes_chars ds' t' d hwf'
     rw [h.raw, ← h2] at h1
     exact h1
   · have h1 := paras_char_view ds t d hwf
@@ -66,7 +65,7 @@ theorem C12_unit_len_irrelevant (ds ds' : DataSource) (t t' : Text) (hwf : t.WF)
 /-- the same for `ParagraphBidiInfo` (the single-paragraph type): same reported class and same level for every
     character, same paragraph level, same `pure_ltr` flag, same panic field -/
 theorem C12_unit_len_irrelevant_single (ds ds' : DataSource) (t t' : Text) (hwf : t.WF) (hwf' : t'.WF)
-    (hfsi : C02.FSIWidth ds t) (hfsi' : C02.FSIWidth ds' t') (d : Option Nat)
+    (d : Option Nat)
     (hcls : t.segs.map (fun s => ds.cls s.cp) = t'.segs.map (fun s => ds'.cls s.cp))
     (hbrk : t.segs.map (fun s => ds.brk s.cp) = t'.segs.map (fun s => ds'.brk s.cp)) :
     let q := paragraphBidiInfo ds t d
@@ -78,10 +77,10 @@ theorem C12_unit_len_irrelevant_single (ds ds' : DataSource) (t t' : Text) (hwf 
   have hf1 := last_flags ds t d false
   have hf2 := last_flags ds' t' d false
   rw [h.raw, ← hf2] at hf1
-  refine ⟨?_, single_levels_congr ds ds' t t' hwf hwf' hfsi hfsi' d h 0, ?_, congrArg Prod.fst hf1,
-    single_err_congr ds ds' t t' hwf hwf' hfsi hfsi' d h⟩
-  · have h1 := single_contract ds t d hwf hfsi
-    have h2 := single_contract ds' t' d hwf' hfsi'
+  refine ⟨?_, single_levels_congr ds ds' t t' hwf hwf' d h 0, ?_, congrArg Prod.fst hf1,
+    single_err_congr ds ds' t t' hwf hwf' d h⟩
+  · have h1 := single_contract ds t d hwf
+    have h2 := single_contract ds' t' d hwf'
     rw [h.raw, ← h2] at h1
     exact h1
   · show (computeInitialInfo ds t d false).lastLevel = (computeInitialInfo ds' t' d false).lastLevel
@@ -89,11 +88,11 @@ theorem C12_unit_len_irrelevant_single (ds ds' : DataSource) (t t' : Text) (hwf 
 
 /-- reading at the first unit loses nothing: in either type every code unit of a character carries the class
     and the level of the character's first unit -/
-theorem C12_units_uniform (ds : DataSource) (t : Text) (hwf : t.WF) (hfsi : C02.FSIWidth ds t) (d : Option Nat) :
+theorem C12_units_uniform (ds : DataSource) (t : Text) (hwf : t.WF) (d : Option Nat) :
     Expand.UniformOn t (bidiInfo ds t d).classes ∧ Expand.UniformOn t (bidiInfo ds t d).levels ∧
     Expand.UniformOn t (paragraphBidiInfo ds t d).classes ∧ Expand.UniformOn t (paragraphBidiInfo ds t d).levels :=
-  ⟨classes_uniformOn ds t d hwf hfsi true, (Expand.PipelineC09.C09_levels_uniform ds t d hwf hfsi).1,
-    classes_uniformOn ds t d hwf hfsi false, (Expand.PipelineC09.C09_levels_uniform ds t d hwf hfsi).2⟩
+  ⟨classes_uniformOn ds t d hwf true, (Expand.PipelineC09.C09_levels_uniform ds t d hwf).1,
+    classes_uniformOn ds t d hwf false, (Expand.PipelineC09.C09_levels_uniform ds t d hwf).2⟩
 
 theorem UniformOn_def {α} (t : Text) (xs : List α) :
     Expand.UniformOn t xs ↔ ∀ s ∈ t.segs, ∀ j, j < s.len → xs[s.start + j]? = xs[s.start]? := Iff.rfl
@@ -114,12 +113,11 @@ def exDS : DataSource := { cls := fun c => bidiClass (c - 0x10000), brk := fun c
 
 /- non-vacuity: the hypotheses of `C12_unit_len_irrelevant` hold for (`hardcoded`, `exA`) and (`exDS`, `exB`):
    different encodings, different unit lengths, different scalar values, different sources -/
-example : exA.WF ∧ exB.WF ∧ C02.FSIWidth hardcoded exA ∧ C02.FSIWidth exDS exB ∧
+example : exA.WF ∧ exB.WF ∧
     exA.segs.map (fun s => hardcoded.cls s.cp) = exB.segs.map (fun s => exDS.cls s.cp) ∧
     exA.segs.map (fun s => hardcoded.brk s.cp) = exB.segs.map (fun s => exDS.brk s.cp) ∧
     exA.segs.map (·.cp) ≠ exB.segs.map (·.cp) ∧ exA.len = 11 ∧ exB.len = 14 :=
-  ⟨Lemmas.C10.ofScalars_WF _, C18.C18_wf _ (by decide), hardcoded_FSIWidth _ (Lemmas.C10.ofScalars_WF _),
-    by unfold C02.FSIWidth; decide +kernel, by decide +kernel, by decide +kernel, by decide +kernel,
+  ⟨Lemmas.C10.ofScalars_WF _, C18.C18_wf _ (by decide), by decide +kernel, by decide +kernel, by decide +kernel,
     by decide +kernel, by decide +kernel⟩
 
 /- test (literal): the two level vectors there (per code unit: 11 against 14 entries), the paragraphs at different
